@@ -209,8 +209,14 @@ def field_space_problems(ev, loop, container, what='fields'):
     return out
 
 
+def _unwrapped(sp):
+    while isinstance(sp, Wrapped):
+        sp = sp.space
+    return sp
+
+
 def field_type_value(loop):
-    sp = loop.space
+    sp = _unwrapped(loop.space)
     if isinstance(sp, (ItemsSp, ValuesSp)):
         return LoopVar(loop, 'val')
     if isinstance(sp, KeysSp):
@@ -219,7 +225,7 @@ def field_type_value(loop):
 
 
 def field_key_value(loop):
-    if isinstance(loop.space, (ItemsSp, KeysSp)):
+    if isinstance(_unwrapped(loop.space), (ItemsSp, KeysSp)):
         return LoopVar(loop, 'key')
     return None
 
@@ -1344,3 +1350,827 @@ def attr_source(func, expr, at):
     if rv is None:
         return None
     return rv[0], rv[1], (rv[4].args[0] if rv[4].args else None)
+
+
+# ---------------------------------------------------------------------------
+# R-C06-eqhash
+def field_tuple(v):
+    """a hole that stands for `<root>.<f0>,<root>.<f1>,...`: returns (root, loop) or a problem string"""
+    ji = join_info(v)
+    if ji is None:
+        return f"{show(v)} is not a join over the fields"
+    sep, rev, seq = ji
+    if sep.strip() != ',':
+        return f"elements joined with {sep!r}"
+    ents = list(U.flatten(seq.segs))
+    if not (len(ents) == 1 and isinstance(ents[0][0], Item) and len(ents[0][1]) == 1 and not ents[0][2]):
+        return f"{show(seq)} is not exactly one element per field"
+    L = ents[0][1][0].loop
+    hl = U.Holes()
+    e, src, err = U.parse_text(ents[0][0].v, hl, 'eval')
+    if err or not (isinstance(e, ast.Attribute) and isinstance(e.value, ast.Name)):
+        return f"element `{src}` is not <object>.<field>"
+    if hl.value(e.attr) != field_key_value(L):
+        return f"element `{src}` does not name the current field"
+    root = hl.value(e.value.id)
+    root = e.value.id if root is None else (U.tmpl_text(root) or show(root))
+    return (root, L, rev)
+
+
+def tuple_holes(node, hl):
+    """the field-tuple holes of an emitted tuple expression `(<hole>,)`"""
+    if isinstance(node, ast.Tuple) and len(node.elts) == 1 and isinstance(node.elts[0], ast.Name):
+        return hl.value(node.elts[0].id)
+    if isinstance(node, ast.Name):
+        return hl.value(node.id)
+    return None
+
+
+def rule_eqhash(repo):
+    r = RuleResult('R-C06-eqhash', "__eq__ compares, and __hash__ hashes, the complete field tuple in declaration order "
+                                   "(equal iff the packed values are equal); __eq__ additionally requires class identity")
+    A = analysis(repo)
+    m = A.m
+    spaces = {}
+    for gname, fname in (('_mk_eq_fn', '__eq__'), ('_mk_hash_fn', '__hash__')):
+        g = A.gen(gname)
+        fns = g.fns()
+        if len(fns) != 1:
+            raise AnalysisError(f"{gname} does not return one generated function")
+        fn = fns[0][1]
+        fields = g.fields_sym()
+        hl = U.Holes()
+        fd, src, err = U.parse_fn(fn, hl)
+        if fd is None:
+            r.bad(m, gname, f"generated {fname}", f"generated source does not parse: {err}", g.fdef.lineno)
+            continue
+        names = [a.arg for a in fd.args.args]
+        rets = [n for n in ast.walk(fd) if isinstance(n, ast.Return)]
+        if fname == '__eq__':
+            cons = "generated __eq__: class identity and field tuples"
+            if len(names) != 2 or len(rets) != 1 or len(fd.body) != 1:
+                r.bad(m, gname, cons, f"`{src}` is not a single `return <class identity> and <tuple> == <tuple>`", g.fdef.lineno)
+                continue
+            e = rets[0].value
+            conj = e.values if isinstance(e, ast.BoolOp) and isinstance(e.op, ast.And) else [e]
+            ident = [c for c in conj if isinstance(c, ast.Compare) and len(c.ops) == 1 and
+                     isinstance(c.ops[0], (ast.Is, ast.Eq)) and
+                     {class_of(c.left), class_of(c.comparators[0])} == set(names)]
+            tups = [c for c in conj if isinstance(c, ast.Compare) and len(c.ops) == 1 and isinstance(c.ops[0], ast.Eq)
+                    and tuple_holes(c.left, hl) is not None and tuple_holes(c.comparators[0], hl) is not None]
+            pr = []
+            if not ident:
+                pr.append("no conjunct requires `other.__class__ is self.__class__`: values of two different struct types "
+                          "with equal field tuples compare equal")
+            if len(ident) + len(tups) != len(conj):
+                pr.append(f"unexpected conjunct in `{norm(e)}`")
+            if len(tups) != 1:
+                pr.append("no comparison of the two field tuples")
+            if pr:
+                r.bad(m, gname, cons, '; '.join(pr), g.fdef.lineno)
+            else:
+                r.ok(m, gname, cons)
+            if len(tups) != 1:
+                continue
+            c = tups[0]
+            sides = [field_tuple(tuple_holes(c.left, hl)), field_tuple(tuple_holes(c.comparators[0], hl))]
+            cons = "generated __eq__: the two tuples list every field of self and of other, pairwise aligned"
+            pr = [s for s in sides if isinstance(s, str)]
+            if not pr:
+                (ra, La, reva), (rb, Lb, revb) = sides
+                if {ra, rb} != set(names):
+                    pr.append(f"the tuples are built from {ra} and {rb}, must be {names[0]} and {names[1]} (a value would be "
+                              f"compared with itself)")
+                for L in (La, Lb):
+                    pr += field_space_problems(g.ev, L, fields)
+                if show(La.space) != show(Lb.space) or reva != revb:
+                    pr.append("the two tuples enumerate the fields differently: field i of self is compared with field j of other")
+                spaces['eq'] = show(U.subst_values(La.space, {fields: Sym('F')})) if fields else None
+            if pr:
+                r.bad(m, gname, cons, '; '.join(pr), g.fdef.lineno)
+            else:
+                r.ok(m, gname, cons)
+        else:
+            cons = "generated __hash__: hash of the complete field tuple of self"
+            e = rets[0].value if len(rets) == 1 and len(fd.body) == 1 else None
+            ok = len(names) == 1 and isinstance(e, ast.Call) and norm(e.func) == 'hash' and len(e.args) == 1 and not e.keywords
+            hole = tuple_holes(e.args[0], hl) if ok else None
+            if hole is None:
+                r.bad(m, gname, cons, f"`{src}` is not `return hash((<field tuple>,))`", g.fdef.lineno)
+                continue
+            side = field_tuple(hole)
+            pr = []
+            if isinstance(side, str):
+                pr.append(side)
+            else:
+                root, L, rev = side
+                if root != names[0]:
+                    pr.append(f"hashes the fields of `{root}`, not of `{names[0]}`")
+                pr += field_space_problems(g.ev, L, fields)
+                spaces['hash'] = show(U.subst_values(L.space, {fields: Sym('F')})) if fields else None
+            if pr:
+                r.bad(m, gname, cons, '; '.join(pr) + " -- equal values must hash equally and the hash must cover what __eq__ "
+                      "compares", g.fdef.lineno)
+            else:
+                r.ok(m, gname, cons)
+    cons = "__eq__ and __hash__ range over the same field tuple"
+    if 'eq' in spaces and 'hash' in spaces:
+        if spaces['eq'] == spaces['hash']:
+            r.ok(m, '_mk_hash_fn', cons + f": {spaces['eq']}")
+        else:
+            r.bad(m, '_mk_hash_fn', cons + f": {spaces['eq']} / {spaces['hash']}",
+                  "__eq__ and __hash__ are computed from different field sets", A.gen('_mk_hash_fn').fdef.lineno)
+    r.evaluations = A.steps()
+    if not r.findings:
+        r.require_floor(4)
+    return r
+
+
+# ---------------------------------------------------------------------------
+# R-C06-init: the positional constructor contract from_bits / clone rely on
+def rule_init(repo):
+    r = RuleResult('R-C06-init', "generated __init__: one positional parameter per field in declaration order; Bits fields are "
+                                 "converted by the field's Bits class, struct / list fields default to fresh distinct objects of "
+                                 "the (innermost) field type")
+    A = analysis(repo)
+    m = A.m
+    g = A.gen('_mk_init_fn', KINDS)
+    fields = g.fields_sym()
+    if fields is None:
+        raise AnalysisError("_mk_init_fn does not iterate its field table")
+    for kind in KINDS:
+        top, ev = g.tops[kind]
+        if not isinstance(top, Fn):
+            raise AnalysisError("_mk_init_fn does not return one generated function")
+        fn = top
+        # ---- parameter list
+        cons = f"__init__ parameters ({kind} field)"
+        segs = fn.args.segs if isinstance(fn.args, SeqV) else None
+        pr = []
+        if not segs or not isinstance(segs[0], Item) or len(segs) != 2 or not isinstance(segs[1], LoopSeg):
+            pr.append(f"parameter list is {show(fn.args)}, not [self, <one parameter per field>]")
+        else:
+            Lp = segs[1].loop
+            pr += field_space_problems(ev, Lp, fields)
+            if not (len(segs[1].segs) == 1 and isinstance(segs[1].segs[0], Item)):
+                pr.append(f"per-field parameters are {show(segs[1])}: not exactly one per field")
+        hl = U.Holes()
+        fd, src, err = U.parse_fn(fn, hl)
+        if fd is None:
+            pr.append(f"generated source does not parse: {err}")
+        if pr:
+            r.bad(m, g.name, cons, '; '.join(pr) + " -- from_bits and clone pass the field values positionally", g.fdef.lineno)
+            continue
+        a = fd.args
+        names = [x.arg for x in a.args]
+        selfn = names[0]
+        if len(names) != 2 or hl.value(names[1]) != field_key_value(Lp) or len(a.defaults) != 1 or a.kwonlyargs or a.vararg:
+            r.bad(m, g.name, cons, f"signature `{norm(a)}`: the per-field parameter is not `<field name> = <default>`",
+                  g.fdef.lineno)
+            continue
+        dflt = a.defaults[0]
+        want_d = '0' if kind == 'bits' else 'None'
+        if norm(dflt) != want_d:
+            r.bad(m, g.name, cons, f"default of a {kind} field parameter is `{norm(dflt)}`, expected `{want_d}`", g.fdef.lineno)
+            continue
+        r.ok(m, g.name, cons + f": ({show(hl.value(selfn) or selfn)}, <field> = {want_d})")
+        # ---- body
+        cons = f"__init__ body ({kind} field)"
+        bsegs = fn.body.segs if isinstance(fn.body, SeqV) else None
+        if not bsegs or len(bsegs) != 1 or not isinstance(bsegs[0], LoopSeg) or len(bsegs[0].segs) != 1 \
+                or not isinstance(bsegs[0].segs[0], Item) or len(fd.body) != 1:
+            r.bad(m, g.name, cons, f"body is {show(fn.body)}: not exactly one assignment per field", g.fdef.lineno)
+            continue
+        Lb = bsegs[0].loop
+        pr = field_space_problems(ev, Lb, fields)
+        st = fd.body[0]
+        key = field_key_value(Lb)
+        kn = hl.by_value.get(key)
+        ok = isinstance(st, ast.Assign) and len(st.targets) == 1 and isinstance(st.targets[0], ast.Attribute) \
+            and norm(st.targets[0].value) == selfn and st.targets[0].attr == kn
+        if not ok:
+            pr.append(f"statement `{norm(st)}` is not `{selfn}.<field> = ...`")
+        else:
+            v = st.value
+            if kind == 'bits':
+                # <type of the field>(<parameter>)
+                good = isinstance(v, ast.Call) and len(v.args) == 1 and not v.keywords and norm(v.args[0]) == kn \
+                    and isinstance(v.func, ast.Name)
+                if not good:
+                    pr.append(f"a Bits field is initialised with `{norm(v)}`, not with <field type>(<parameter>): the struct "
+                              f"would alias the caller's object / keep a value of another width")
+                else:
+                    pr += _type_global(fn, ev, hl, v.func.id, kn, Lb, kind)
+            else:
+                # <parameter> or <fresh default>
+                good = isinstance(v, ast.BoolOp) and isinstance(v.op, ast.Or) and len(v.values) == 2 \
+                    and norm(v.values[0]) == kn and isinstance(v.values[1], ast.Name) \
+                    and isinstance(hl.value(v.values[1].id), Rec)
+                if not good:
+                    pr.append(f"a {kind} field is initialised with `{norm(v)}`, not with `<parameter> or <fresh default>`")
+                else:
+                    rec = hl.value(v.values[1].id)
+                    h = g.helpers.get(rec.fn)
+                    if h is None or rec.args[h.pos(h.tpname)] != field_type_value(Lb):
+                        pr.append(f"default `{show(rec)}` is not built from the type of the current field")
+                    elif dict(rec.closure).get('name') not in (None, key) and 'name' in dict(rec.closure):
+                        pr.append("the default builder is bound to another field's name")
+                    else:
+                        pr += _default_builder(h, fn, ev, hl, Lb, kind, dict(rec.closure))
+        if pr:
+            r.bad(m, g.name, cons, '; '.join(pr), g.fdef.lineno)
+        else:
+            r.ok(m, g.name, cons + f": {show(bsegs[0].segs[0].v)}")
+    r.evaluations = A.steps()
+    if not r.findings:
+        r.require_floor(6)
+    return r
+
+
+def _type_global(fn, ev, hl, ctor_name_src, kn, Lb, kind):
+    """the constructor name used in the emitted text must be a key of the generated function's globals that is
+    bound to the field's type (innermost element type for lists)"""
+    gl = fn.globs
+    if not isinstance(gl, DictV):
+        return [f"globals of the generated __init__ are {show(gl)}"]
+    # the text of the emitted name with the field-name placeholder, e.g. _type_<field>
+    want_val = {'bits': lambda L: field_type_value(L), 'struct': lambda L: field_type_value(L),
+                'list': lambda L: Innermost(field_type_value(L))}[kind]
+    for s, loops, conds in U.flatten(gl.segs):
+        if not isinstance(s, Item) or len(loops) != 1 or conds:
+            continue
+        Lg = loops[0].loop
+        if not isinstance(Lg.space, type(Lb.space)) or show(Lg.space) != show(Lb.space):
+            continue
+        k, v = s.v.items
+        h2 = U.Holes()
+        ktxt = U.render(U.subst_values(k, {field_key_value(Lg): Const('__FIELD__')}), h2)
+        if ktxt == ctor_name_src.replace(kn, '__FIELD__'):
+            if v == want_val(Lg):
+                return field_space_problems(ev, Lg, Lg.space.d) if False else []
+            return [f"global `{ktxt.replace('__FIELD__', '<field>')}` is bound to {show(v)}, must be "
+                    f"{show(want_val(Lg))} ({'for a multi-dimensional list the element type is the innermost one' if kind == 'list' else 'the type of the field'})"]
+    return [f"the name `{ctor_name_src.replace(kn, '<field>')}` used by the generated __init__ is not defined in its globals"]
+
+
+def _default_builder(h, fn, ev, hl, Lb, kind, closure):
+    pr = []
+    key_sym = None
+    # leaf: <type global>() -- a fresh object per call site
+    leaf = h.cases['struct'][0]
+    if leaf != h.cases['bits'][0]:
+        pr.append("default builder distinguishes struct and Bits elements")
+    # free variable of the builder that carries the field name
+    fv = [n for n, v in closure.items() if v == field_key_value(Lb)]
+    hl2 = U.Holes()
+    e, src, err = U.parse_text(leaf, hl2, 'eval') if stringish(leaf) else (None, show(leaf), 'not a string')
+    if err or not (isinstance(e, ast.Call) and not e.args and not e.keywords and isinstance(e.func, ast.Name)):
+        pr.append(f"default leaf is `{src}`, not a constructor call: default elements would not be fresh objects")
+        return pr
+    # compose the emitted constructor name with the closure (the field name)
+    name_t = leaf
+    for n in fv:
+        name_t = U.subst_values(name_t, {Sym(n): Const('__FIELD__')})
+    txt = U.render(name_t, U.Holes())
+    if not txt.endswith('()') or '__h' in txt:
+        pr.append(f"default leaf `{src}` does not name the field's type global")
+        return pr
+    pr += _type_global(fn, ev, hl, txt[:-2], '__FIELD__', Lb, kind)
+    if kind == 'list':
+        v = h.cases['list'][0]
+        hl3 = U.Holes()
+        e, src3, err3 = U.parse_text(v, hl3, 'eval') if stringish(v) else (None, show(v), 'x')
+        ok = err3 is None and isinstance(e, ast.List) and len(e.elts) == 1 and isinstance(e.elts[0], ast.Name)
+        ji = join_info(hl3.value(e.elts[0].id)) if ok else None
+        if ji is None:
+            pr.append(f"default of a list field is `{src3}`, not a list literal with one separately constructed default per "
+                      f"element (e.g. `[x] * n` would make all elements one shared object: writing element 0 changes every "
+                      f"element)")
+        else:
+            sep, rev, seq = ji
+            ents = list(U.flatten(seq.segs))
+            if sep.strip() != ',' or not (len(ents) == 1 and isinstance(ents[0][0], Item) and isinstance(ents[0][0].v, Rec)
+                                          and len(ents[0][1]) == 1 and not ents[0][2]):
+                pr.append(f"default list elements are {show(seq)}")
+            else:
+                L = ents[0][1][0].loop
+                sp = L.space
+                if not (isinstance(sp, RangeSp) and sp.n == Len(h.T) and sp.complete):
+                    pr.append(f"default list has {show(sp)} elements, not len({show(h.T)})")
+                rec = ents[0][0].v
+                if rec.args[h.pos(h.tpname)] not in elem_type_values(L, h.T):
+                    pr.append(f"default list elements are built for {show(rec.args[h.pos(h.tpname)])}")
+    return pr
+
+
+# ---------------------------------------------------------------------------
+# R-C06-wiring: which generated function becomes which method, from which field table
+#   attribute -> (generator, wrapper, mandatory)
+WIRING = {
+    '__init__':     ('_mk_init_fn', [], False),
+    '__eq__':       ('_mk_eq_fn', [], False),
+    '__hash__':     ('_mk_hash_fn', [], False),
+    '__ilshift__':  ('_mk_ff_fn', [], True),
+    '_flip':        ('_mk_ff_fn', [], True),
+    'clone':        ('_mk_clone_fn', [], True),
+    '__deepcopy__': ('_mk_deepcopy_fn', [], True),
+    '__imatmul__':  ('_mk_imatmul_fn', [], True),
+    'nbits':        ('_mk_nbits_to_bits_fn', [], True),
+    'to_bits':      ('_mk_nbits_to_bits_fn', [], True),
+    'from_bits':    ('_mk_from_bits_fns', ['classmethod'], True),
+}
+
+
+def _loop_fill_problems(func, table, what):
+    """the dict `table` must be filled by `table[k] = v` for every (k, v) of a plain `.items()` loop.
+    Returns (problems, loop node, iterated expression)"""
+    stores = [n for n in walk_no_nested(func) if isinstance(n, ast.Assign) and len(n.targets) == 1
+              and isinstance(n.targets[0], ast.Subscript) and norm(n.targets[0].value) == table]
+    if len(stores) != 1:
+        return [f"`{table}` is filled at {len(stores)} places (expected one `{table}[name] = type` in a loop)"], None, None
+    st = stores[0]
+    loop = parent(st)
+    while loop is not None and not isinstance(loop, (ast.For, ast.FunctionDef)):
+        loop = parent(loop)
+    if not isinstance(loop, ast.For):
+        return [f"`{norm(st)}` is not inside a loop over the declared fields"], None, None
+    pr = []
+    it = loop.iter
+    if not (isinstance(it, ast.Call) and isinstance(it.func, ast.Attribute) and it.func.attr == 'items' and not it.args):
+        pr.append(f"iterates `{norm(it)}`, not `<declared fields>.items()`: {what} order is not the declaration order")
+        src = None
+    else:
+        src = it.func.value
+    tg = loop.target
+    if not (isinstance(tg, ast.Tuple) and len(tg.elts) == 2 and norm(st.targets[0].slice) == norm(tg.elts[0])
+            and norm(st.value) == norm(tg.elts[1])):
+        pr.append(f"`{norm(st)}` does not store the loop's (name, type) pair")
+    if any(g.kind == 'if' for g in guards_of(st, stop=loop)):
+        pr.append(f"`{norm(st)}` is conditional: some declared fields are dropped from the field table")
+    if any(isinstance(n, (ast.Continue, ast.Break)) for b in loop.body for n in walk_no_nested(b)) or loop.orelse:
+        pr.append("the loop contains break/continue: some declared fields are dropped from the field table")
+    return pr, loop, src
+
+
+def rule_wiring(repo):
+    r = RuleResult('R-C06-wiring', "_process_class attaches every generated function under its method name (tuple results in "
+                                   "the right order, from_bits as classmethod), all from the one field table that preserves the "
+                                   "declaration order; bitstruct / mk_bitstruct hand the class and the ordered annotations through")
+    A = analysis(repo)
+    m = A.m
+    pc = m.get_func('_process_class')
+    cls = pc.args.args[0].arg
+    stores = attr_stores(pc, cls)
+    fields_names = set()
+    for attr, (gname, wrappers, mandatory) in WIRING.items():
+        cons = f"cls.{attr} <- {gname}"
+        cands = [(a, v, i, st) for a, v, i, st in stores if a == attr]
+        if len(cands) != 1:
+            r.bad(m, '_process_class', cons, f"{len(cands)} assignments of cls.{attr} (expected exactly one)", pc.lineno)
+            continue
+        a, v, i, st = cands[0]
+        rv = resolve_value(pc, v, i, st)
+        if rv is None:
+            r.bad(m, '_process_class', cons, f"cls.{attr} is assigned `{norm(v)}`, not the result of a generator", st.lineno)
+            continue
+        gn, idx, farg, wr, call = rv
+        pr = []
+        if gn != gname:
+            pr.append(f"cls.{attr} is produced by {gn}, must be {gname}")
+        else:
+            g = A.gen(gname, KINDS if gname == '_mk_init_fn' else (None,))
+            top = g.top
+            comp = top
+            if isinstance(top, Tup):
+                if idx is None or not (0 <= idx < len(top.items)):
+                    pr.append(f"{gname} returns {len(top.items)} results, cls.{attr} takes {'all' if idx is None else idx}")
+                    comp = None
+                else:
+                    comp = top.items[idx]
+            elif idx is not None:
+                pr.append(f"{gname} returns one function, cls.{attr} takes component {idx}")
+                comp = None
+            if comp is not None:
+                if attr == 'nbits':
+                    if isinstance(comp, Fn):
+                        pr.append(f"cls.nbits receives the generated function {show(comp.name)} (results of {gname} swapped)")
+                elif not isinstance(comp, Fn):
+                    pr.append(f"cls.{attr} receives {show(comp)[:60]}, not a generated function (results of {gname} swapped)")
+                elif U.tmpl_text(comp.name) != attr:
+                    pr.append(f"cls.{attr} receives the generated function {show(comp.name)}")
+            fs = g.fields_sym()
+            bound = bind_call(g.fdef, call)
+            fa = bound.get(fs.name) if fs is not None else None
+            if not isinstance(fa, ast.Name):
+                pr.append(f"the field table argument of {gname} is `{norm(fa)}`")
+            else:
+                fields_names.add(fa.id)
+        if wr != wrappers:
+            pr.append(f"cls.{attr} is wrapped with {wr or 'nothing'}, must be {wrappers or 'nothing'}"
+                      + (" (from_bits is called on the class: T.from_bits(bits))" if attr == 'from_bits' else ''))
+        ifs = [g_ for g_ in guards_of(st) if g_.kind == 'if']
+        if mandatory and ifs:
+            pr.append(f"cls.{attr} is only assigned under `{norm(ifs[0].test)}`")
+        if not mandatory:
+            params = {x.arg for x in pc.args.args}
+            for g_ in ifs:
+                t = g_.test
+                if isinstance(t, ast.Name) and t.id in params and g_.polarity:
+                    continue
+                if isinstance(t, ast.Compare) and len(t.ops) == 1 and isinstance(t.left, ast.Constant) \
+                        and norm(t.comparators[0]) == f"{cls}.__dict__" \
+                        and ((isinstance(t.ops[0], ast.In) and not g_.polarity) or (isinstance(t.ops[0], ast.NotIn) and g_.polarity)):
+                    if t.left.value != attr:
+                        pr.append(f"cls.{attr} is generated depending on whether the user defined {t.left.value!r}")
+                    continue
+                pr.append(f"cls.{attr} is assigned under the unexpected condition `{norm(t)}`")
+        (r.bad(m, '_process_class', cons, '; '.join(pr), st.lineno) if pr else r.ok(m, '_process_class', cons))
+    # ---- one field table, stamped on the class, filled in declaration order
+    cons = "one field table for all generators, stamped as __bitstruct_fields__"
+    pr = []
+    if len(fields_names) != 1:
+        pr.append(f"generators are fed from different tables: {sorted(fields_names)}")
+    else:
+        F = next(iter(fields_names))
+        key = None
+        stamped = []
+        for a, v, i, st in stores:
+            k = a
+            if isinstance(a, str) and a.startswith('$'):
+                c = m.assigns.get(a[1:])
+                k = c.value if isinstance(c, ast.Constant) else a
+            if k == '__bitstruct_fields__':
+                stamped.append((v, st))
+        if len(stamped) != 1 or norm(stamped[0][0]) != F or any(g_.kind == 'if' for g_ in guards_of(stamped[0][1])):
+            pr.append(f"the class attribute __bitstruct_fields__ (read back for nested structs by to_bits/from_bits and by the "
+                      f"translators) is not unconditionally set to `{F}`")
+        p2, loop, src = _loop_fill_problems(pc, F, 'field')
+        pr += p2
+        if src is not None:
+            ok = False
+            if isinstance(src, ast.Name):
+                ns = name_source(pc, src.id, loop)
+                if ns is not None and ns[1] is None:
+                    ok = '__annotations__' in norm(ns[0]) and cls in norm(ns[0])
+            else:
+                ok = '__annotations__' in norm(src) and cls in norm(src)
+            if not ok:
+                pr.append(f"the field table is not built from the class annotations (`{norm(src)}`)")
+    (r.bad(m, '_process_class', cons, '; '.join(pr), pc.lineno) if pr else r.ok(m, '_process_class', cons))
+    # ---- reserved names cannot be user-defined (the generated packing methods are never shadowed by a field)
+    cons = "to_bits / from_bits / nbits are reserved names"
+    res = [n for n in walk_no_nested(pc) if isinstance(n, ast.Assert) and isinstance(n.test, ast.Compare)
+           and isinstance(n.test.ops[0], ast.NotIn) and any(isinstance(x, ast.For) for x in _ancestors(n, pc))]
+    lists = [n.value for n in walk_no_nested(pc) if isinstance(n, ast.Assign) and isinstance(n.value, (ast.List, ast.Tuple))
+             and all(isinstance(e, ast.Constant) for e in n.value.elts)]
+    names = {e.value for l in lists for e in l.elts}
+    if res and {'to_bits', 'from_bits', 'nbits'} <= names:
+        r.ok(m, '_process_class', cons, nontrivial=False)
+    else:
+        r.bad(m, '_process_class', cons, "a field or user attribute named to_bits / from_bits / nbits is no longer rejected: "
+              "the generated method would be shadowed by / would overwrite it", pc.lineno)
+    # ---- bitstruct decorator
+    bs = m.get_func('bitstruct')
+    cons = "bitstruct(cls) returns _process_class(cls, ...)"
+    pr = []
+    inner = [n for n in bs.body if isinstance(n, ast.FunctionDef)]
+    okw = None
+    for w in inner:
+        rets = [n for n in walk_no_nested(w) if isinstance(n, ast.Return)]
+        if len(rets) == 1 and isinstance(rets[0].value, ast.Call) and norm(rets[0].value.func) == '_process_class' \
+                and rets[0].value.args and w.args.args and norm(rets[0].value.args[0]) == w.args.args[0].arg:
+            okw = w
+            dropped = [p.arg for p in bs.args.kwonlyargs if p.arg not in {n.id for n in ast.walk(rets[0].value)
+                                                                             if isinstance(n, ast.Name)}]
+            if dropped:
+                r.observations.append(f"bitstruct() does not forward {dropped} to _process_class (the flag is ignored; "
+                                      f"not a clause of C06: a consistent __hash__ is always generated)")
+    if okw is None:
+        pr.append("no inner wrapper returns _process_class(<its class argument>, ...)")
+    else:
+        c0 = bs.args.args[0].arg if bs.args.args else None
+        rets = [n for n in walk_no_nested(bs) if isinstance(n, ast.Return)]
+        vals = {norm(x.value) for x in rets}
+        if not ({okw.name, f"{okw.name}({c0})"} >= vals and f"{okw.name}({c0})" in vals):
+            pr.append(f"bitstruct returns {sorted(vals)}, expected the wrapper applied to the class")
+    (r.bad(m, 'bitstruct', cons, '; '.join(pr), bs.lineno) if pr else r.ok(m, 'bitstruct', cons))
+    # ---- mk_bitstruct
+    mk = m.get_func('mk_bitstruct')
+    cons = "mk_bitstruct: annotations = the given fields in order; class handed to bitstruct"
+    pr = []
+    annos = [n for n in walk_no_nested(mk) if isinstance(n, ast.Assign) and len(n.targets) == 1
+             and isinstance(n.targets[0], ast.Subscript) and isinstance(n.targets[0].slice, ast.Constant)
+             and n.targets[0].slice.value == '__annotations__']
+    if len(annos) != 1 or not isinstance(annos[0].value, ast.Name):
+        pr.append("the class namespace does not receive `__annotations__`")
+    else:
+        table = annos[0].value.id
+        nsname = norm(annos[0].targets[0].value)
+        p2, loop, src = _loop_fill_problems(mk, table, 'field')
+        pr += p2
+        fparam = mk.args.args[1].arg if len(mk.args.args) > 1 else None
+        if src is not None and norm(src) != fparam:
+            pr.append(f"annotations are built from `{norm(src)}`, not from the `{fparam}` argument")
+        rets = [n for n in walk_no_nested(mk) if isinstance(n, ast.Return)]
+        if len(rets) != 1 or not (isinstance(rets[0].value, ast.Call) and norm(rets[0].value.func) == 'bitstruct'
+                                  and rets[0].value.args and isinstance(rets[0].value.args[0], ast.Name)):
+            pr.append("does not return bitstruct(<new class>, ...)")
+        else:
+            cs = name_source(mk, rets[0].value.args[0].id, rets[0])
+            if cs is None or cs[1] is not None or nsname not in {n.id for n in ast.walk(cs[0]) if isinstance(n, ast.Name)}:
+                pr.append("the class passed to bitstruct is not created from the namespace holding the annotations")
+    (r.bad(m, 'mk_bitstruct', cons, '; '.join(pr), mk.lineno) if pr else r.ok(m, 'mk_bitstruct', cons))
+    r.evaluations = A.steps()
+    r.require_floor(14)
+    return r
+
+
+def _ancestors(n, stop):
+    out = []
+    p = parent(n)
+    while p is not None and p is not stop:
+        out.append(p)
+        p = parent(p)
+    return out
+
+
+# ---------------------------------------------------------------------------
+# R-C06-concat
+def rule_concat(repo):
+    r = RuleResult('R-C06-concat', "concat(a, b, ...) places its first operand most significant, each operand shifted by the "
+                                   "widths of the later ones, and the result width is the sum of the operand widths")
+    m = repo.mod(HELPERS)
+    f = m.functions.get('concat')
+    if f is None:
+        raise AnalysisError("anchor vanished: concat in helpers.py")
+    if f.args.vararg is None or f.args.args:
+        raise AnalysisError("concat no longer takes *args")
+    v, ev = U.eval_generator(m, f, None)
+    r.evaluations = ev.steps
+    if not (isinstance(v, CallV) and len(v.args) == 2 and not v.kwargs):
+        r.bad(m, 'concat', 'result', f"returns {show(v)}, not Bits(<total width>, <value>)", f.lineno)
+        r.require_floor(1)
+        return r
+    cons = f"result constructor {v.fn}(width, value)"
+    if v.fn not in ('Bits',):
+        r.bad(m, 'concat', cons, f"result is built with {v.fn}", f.lineno)
+    else:
+        r.ok(m, 'concat', cons, nontrivial=False, note="Bits(nbits, ..) rejects nbits >= 1024: the total width limit")
+    w, val = v.args
+    args = Sym(f.args.vararg.arg)
+
+    def loop_ok(fold, what):
+        if not isinstance(fold, Fold):
+            return [f"the {what} is {show(fold)}, not accumulated over the operands"], None
+        pr = flags_problem(ev, fold.loop, 'operands')
+        sp = fold.loop.space
+        if not (isinstance(sp, KeysSp) and sp.d == args):
+            pr.append(f"iterates {show(sp)}, not the operands in the order given")
+        if fold.init != Lin(0):
+            pr.append(f"the {what} starts at {show(fold.init)}")
+        return pr, LoopVar(fold.loop, 'key')
+    cons = "width = sum of operand widths"
+    pr, x = loop_ok(w, 'width')
+    if x is not None and not pr:
+        want = U.lin(Carried(w.loop, w.name)).add(U.lin(Attr(x, 'nbits')))
+        if U.lin(w.step) != want:
+            pr.append(f"each operand changes the width to {show(w.step)}, must add the operand's nbits")
+    (r.bad(m, 'concat', cons, '; '.join(pr), f.lineno) if pr else r.ok(m, 'concat', cons))
+    cons = "value = (value << width of this operand) | operand: first operand ends most significant"
+    pr, x = loop_ok(val, 'value')
+    if x is not None and not pr:
+        st = val.step
+        ok = False
+        if isinstance(st, Bin) and st.op in ('BitOr', 'Add', 'BitXor'):
+            for a, b in ((st.l, st.r), (st.r, st.l)):
+                if isinstance(a, Bin) and a.op == 'LShift' and a.l == Carried(val.loop, val.name) \
+                        and U.unlin(a.r) == Attr(x, 'nbits') \
+                        and b in (CallV('.uint', (x,), ()), x, CallV('.__int__', (x,), ()), Attr(x, '_uint')):
+                    ok = True
+        if not ok:
+            pr.append(f"each operand updates the value to {show(st)}: not `(value << operand.nbits) | operand.uint()`; "
+                      f"operands would overlap or end up in another order")
+        if w.loop != val.loop if isinstance(w, Fold) else False:
+            pr.append("width and value are accumulated in different loops")
+    (r.bad(m, 'concat', cons, '; '.join(pr), f.lineno) if pr else r.ok(m, 'concat', cons))
+    r.require_floor(3)
+    return r
+
+
+RULES = [rule_traversal, rule_leaf, rule_width, rule_mirror, rule_eqhash, rule_init, rule_wiring, rule_concat]
+
+
+# ---------------------------------------------------------------------------
+# self-test of the checker (thorough tier)
+def _m(name, old, new, rule=None, file=BS, count=1):
+    return dict(name=name, file=file, old=old, new=new, rule=rule, count=count)
+
+
+MUTANTS = [
+    # --- layout direction / mirror
+    _m('to-bits-list-ascending', "for i in reversed(range(len(type_))):", "for i in range(len(type_)):", 'R-C06-traversal'),
+    _m('from-bits-list-not-reversed', """[ f"[{','.join(reversed(from_strs))}]" ]""", """[ f"[{','.join(from_strs)}]" ]""",
+       'R-C06-mirror'),
+    _m('from-bits-struct-args-reversed', """[ f"{type_name}({','.join(from_strs)})" ]""",
+       """[ f"{type_name}({','.join(reversed(from_strs))})" ]""", 'R-C06-leaf'),
+    _m('to-bits-nested-fields-reversed', """      for name, typ in getattr(type_, _FIELDS).items():
+        start_bit, tos""", """      for name, typ in reversed(getattr(type_, _FIELDS).items()):
+        start_bit, tos""", 'R-C06-traversal'),
+    _m('from-bits-top-args-reversed', """f"return cls({','.join(from_bits_strs)})" ]""",
+       """f"return cls({','.join(reversed(from_bits_strs))})" ]""", 'R-C06-leaf'),
+    _m('to-bits-operands-reversed', """[ f"return concat({', '.join(to_bits_strs)})" ]""",
+       """[ f"return concat({', '.join(to_bits_strs[::-1])})" ]""", 'R-C06-leaf'),
+    _m('from-bits-fields-sorted', """  for _, type_ in fields.items():
+    end_bit, fs""", """  for _, type_ in sorted(fields.items(), key=str):
+    end_bit, fs""", 'R-C06'),
+    # --- width bookkeeping
+    _m('to-bits-leaf-width-off', "end_bit = start_bit + type_.nbits", "end_bit = start_bit + type_.nbits + 1", 'R-C06-width'),
+    _m('to-bits-total-starts-at-one', "  total_nbits  = 0", "  total_nbits  = 1", 'R-C06-width'),
+    _m('to-bits-list-counter-not-threaded', """        start_bit, tos = _gen_to_bits_strs( type_[0], f"{prefix}[{i}]", start_bit )""",
+       """        _, tos = _gen_to_bits_strs( type_[0], f"{prefix}[{i}]", start_bit )""", 'R-C06-width'),
+    _m('from-bits-leaf-width-off', "start_bit = end_bit - type_.nbits", "start_bit = end_bit - type_.nbits + 1", 'R-C06-width'),
+    _m('from-bits-leaf-returns-end', """      return start_bit, [ f"other[{start_bit}:{end_bit}]" ]""",
+       """      return end_bit, [ f"other[{start_bit}:{end_bit}]" ]""", 'R-C06-width'),
+    _m('from-bits-slice-bounds-swapped', """f"other[{start_bit}:{end_bit}]\"""", """f"other[{end_bit}:{start_bit}]\"""", 'R-C06-width'),
+    _m('from-bits-slice-upper-off', """f"other[{start_bit}:{end_bit}]\"""", """f"other[{start_bit}:{end_bit-1}]\"""", 'R-C06-width'),
+    _m('from-bits-final-assert-dropped', "  assert end_bit == 0\n", "  pass\n", 'R-C06-width'),
+    _m('from-bits-struct-counter-not-threaded', """        end_bit, fs = _gen_from_bits_strs( typ, end_bit )""",
+       """        _, fs = _gen_from_bits_strs( typ, end_bit )""", 'R-C06-width'),
+    _m('from-bits-list-two-strings', """      return end_bit, [ f"[{','.join(reversed(from_strs))}]" ]""",
+       """      return end_bit, list(reversed(from_strs))""", 'R-C06'),
+    # --- traversal completeness / paths
+    _m('imatmul-skips-element-0', """      for i in range(len(type_)):
+        ret.extend""", """      for i in range(1, len(type_)):
+        ret.extend""", 'R-C06-traversal'),
+    _m('ff-skips-last-element', """      for i in range(len(type_)):
+        ils, fls""", """      for i in range(len(type_)-1):
+        ils, fls""", 'R-C06-traversal'),
+    _m('ff-flip-gets-ilshift-strings', "        flip_strs.extend( fls )\n      return", "        flip_strs.extend( ils )\n      return",
+       'R-C06-traversal'),
+    _m('to-bits-list-index-constant', """_gen_to_bits_strs( type_[0], f"{prefix}[{i}]", start_bit )""",
+       """_gen_to_bits_strs( type_[0], f"{prefix}[0]", start_bit )""", 'R-C06-traversal'),
+    _m('to-bits-nested-name-dropped', """_gen_to_bits_strs( typ, f"{prefix}.{name}", start_bit )""",
+       """_gen_to_bits_strs( typ, f"{prefix}", start_bit )""", 'R-C06-traversal'),
+    _m('clone-list-reversed', """for i in range(len(type_)) ] ) + "]\"""", """for i in reversed(range(len(type_))) ] ) + "]\"""",
+       'R-C06-traversal'),
+    _m('imatmul-skips-private-fields', """  for name, type_ in fields.items():
+    imatmul_strs.extend( _gen_list_imatmul_strs( type_, name ) )""", """  for name, type_ in fields.items():
+    if name.startswith('_'): continue
+    imatmul_strs.extend( _gen_list_imatmul_strs( type_, name ) )""", 'R-C06-traversal'),
+    _m('clone-first-field-only', """  for name, type_ in fields.items():
+    clone_strs.append( "  " + _gen_list_clone_strs( type_, f'self.{name}' ) + "," )
+
+  return _create_fn(
+    'clone',""", """  for name, type_ in list(fields.items())[:1]:
+    clone_strs.append( "  " + _gen_list_clone_strs( type_, f'self.{name}' ) + "," )
+
+  return _create_fn(
+    'clone',""", 'R-C06-traversal'),
+    # --- leaf actions / aliasing
+    _m('imatmul-leaf-aliases', """[ f"self.{prefix} @= other.{prefix}" ]""", """[ f"self.{prefix} = other.{prefix}" ]""", 'R-C06-leaf'),
+    _m('ilshift-leaf-blocking', """[ f"self.{prefix} <<= other.{prefix}" ]""", """[ f"self.{prefix} @= other.{prefix}" ]""", 'R-C06-leaf'),
+    _m('ff-results-swapped', """return [ f"self.{prefix} <<= other.{prefix}" ], [f"self.{prefix}._flip()"]""",
+       """return [f"self.{prefix}._flip()"], [ f"self.{prefix} <<= other.{prefix}" ]""", 'R-C06-leaf'),
+    _m('clone-leaf-aliases', """    return f"{prefix}.clone()\"""", """    return f"{prefix}\"""", 'R-C06-leaf'),
+    _m('imatmul-copies-self', """[ f"self.{prefix} @= other.{prefix}" ]""", """[ f"self.{prefix} @= self.{prefix}" ]""", 'R-C06-leaf'),
+    _m('imatmul-no-return-self', """    imatmul_strs + [ "return self" ],""", """    imatmul_strs,""", 'R-C06-leaf'),
+    _m('deepcopy-no-memo', "[ 'self', 'memo' ]", "[ 'self' ]", 'R-C06-leaf'),
+    _m('ilshift-prologue-inverted', "ilshift_strs = [ 'if self.__class__ is not other.__class__:',",
+       "ilshift_strs = [ 'if self.__class__ is other.__class__:',", 'R-C06-leaf'),
+    _m('from-bits-name-not-registered', "        type_name_mapping[ type_ ] = type_name\n", "        pass\n", 'R-C06-leaf'),
+    _m('from-bits-no-width-assert', '''"assert cls.nbits == other.nbits, f'LHS bitstruct {cls.nbits}-bit <> RHS other {other.nbits}-bit'",''',
+       '''"pass",''', 'R-C06-leaf'),
+    # --- eq / hash
+    _m('eq-no-class-identity', "[ f'return (other.__class__ is self.__class__) and {self_tuple} == {other_tuple}' ]",
+       "[ f'return {self_tuple} == {other_tuple}' ]", 'R-C06-eqhash'),
+    _m('eq-compares-self-with-self', "other_tuple = _mk_tuple_str( 'other', fields )", "other_tuple = _mk_tuple_str( 'self', fields )",
+       'R-C06-eqhash'),
+    _m('hash-first-field-only', """def _mk_hash_fn( fields ):
+  self_tuple = _mk_tuple_str( 'self', fields )""", """def _mk_hash_fn( fields ):
+  self_tuple = _mk_tuple_str( 'self', list(fields)[:1] )""", 'R-C06-eqhash'),
+    _m('tuple-skips-a-field', """for name in fields])},)'""", """for name in list(fields)[1:]])},)'""", 'R-C06-eqhash'),
+    # --- constructor contract
+    _m('init-list-default-aliased', """return f"[{', '.join( [ _recursive_generate_init(x[0]) ] * len(x) )}]\"""",
+       """return f"[{_recursive_generate_init(x[0])}] * {len(x)}\"""", 'R-C06-init'),
+    _m('init-params-reversed', "[ self_name ] + [ _mk_init_arg( *field ) for field in fields.items() ],",
+       "[ self_name ] + [ _mk_init_arg( *field ) for field in reversed(fields.items()) ],", 'R-C06-init'),
+    _m('init-bits-not-converted', "return f'{self_name}.{name} = _type_{name}({name})'", "return f'{self_name}.{name} = {name}'",
+       'R-C06-init'),
+    _m('init-list-type-not-innermost', """      _globals[ f"_type_{name}" ] = x\n""", """      _globals[ f"_type_{name}" ] = type_[0]\n""",
+       'R-C06-init'),
+    # --- wiring
+    _m('wiring-ff-swapped', "cls.__ilshift__, cls._flip = _mk_ff_fn( fields )", "cls._flip, cls.__ilshift__ = _mk_ff_fn( fields )",
+       'R-C06-wiring'),
+    _m('wiring-nbits-to-bits-swapped', "cls.nbits, cls.to_bits = _mk_nbits_to_bits_fn( fields )",
+       "cls.to_bits, cls.nbits = _mk_nbits_to_bits_fn( fields )", 'R-C06'),
+    _m('wiring-clone-is-deepcopy', "cls.clone = _mk_clone_fn( fields )", "cls.clone = _mk_deepcopy_fn( fields )", 'R-C06-wiring'),
+    _m('wiring-from-bits-static', "cls.from_bits = classmethod(from_bits)", "cls.from_bits = staticmethod(from_bits)", 'R-C06-wiring'),
+    _m('wiring-eq-under-hash-test', "  if not '__eq__' in cls.__dict__:\n    cls.__eq__", "  if not '__hash__' in cls.__dict__:\n    cls.__eq__",
+       'R-C06-wiring'),
+    _m('fields-sorted-by-name', "  for a_name, a_type in cls_annotations.items():", "  for a_name, a_type in sorted(cls_annotations.items(), key=str):",
+       'R-C06-wiring'),
+    _m('mk-bitstruct-drops-private', "    annos[ name ] = f\n", "    if not name.startswith('_'): annos[ name ] = f\n", 'R-C06-wiring'),
+    _m('from-bits-total-from-elsewhere', "from_bits = _mk_from_bits_fns( fields, cls.nbits )",
+       "from_bits = _mk_from_bits_fns( fields, sum( getattr(t, 'nbits', 0) for t in fields.values() ) )", 'R-C06-mirror'),
+    _m('from-bits-starts-below-total', "  end_bit = total_nbits\n", "  end_bit = total_nbits - 1\n", 'R-C06-width'),
+    _m('to-bits-list-recurses-on-element-1', '_gen_to_bits_strs( type_[0], f"{prefix}[{i}]", start_bit )',
+       '_gen_to_bits_strs( type_[1], f"{prefix}[{i}]", start_bit )', 'R-C06-traversal'),
+    _m('from-bits-nested-struct-as-leaf', "    elif is_bitstruct_class( type_ ):\n      if type_ in type_name_mapping:",
+       "    elif False:\n      if type_ in type_name_mapping:", 'R-C06-traversal'),
+    _m('eq-becomes-ne', "{self_tuple} == {other_tuple}'", "{self_tuple} != {other_tuple}'", 'R-C06-eqhash'),
+    _m('wiring-deepcopy-from-clone-generator', "cls.__deepcopy__ = _mk_deepcopy_fn( fields )", "cls.__deepcopy__ = _mk_clone_fn( fields )",
+       'R-C06-wiring'),
+    _m('wiring-ff-conditional', "  cls.__ilshift__, cls._flip = _mk_ff_fn( fields )", "  if add_init: cls.__ilshift__, cls._flip = _mk_ff_fn( fields )",
+       'R-C06-wiring'),
+    _m('wiring-imatmul-other-table', "cls.__imatmul__ = _mk_imatmul_fn( fields )", "cls.__imatmul__ = _mk_imatmul_fn( hashable_fields )",
+       'R-C06-wiring'),
+    _m('init-struct-default-is-the-class', """    return f'{self_name}.{name} = {name} or {_recursive_generate_init(type_)}'""",
+       """    return f'{self_name}.{name} = {name} or _type_{name}'""", 'R-C06-init'),
+    _m('to-bits-leaf-emitted-twice', 'return end_bit, [ f"self.{prefix}" ]', 'return end_bit, [ f"self.{prefix}", f"self.{prefix}" ]',
+       'R-C06'),
+    # --- concat
+    _m('concat-result-args-swapped', "return Bits( nbits, value )", "return Bits( value, nbits )", 'R-C06-concat', file=HELPERS),
+    _m('concat-shift-by-total', "value = (value << xnb) | x.uint()", "value = (value << nbits) | x.uint()", 'R-C06-concat', file=HELPERS),
+    _m('concat-lsb-first', "    for x in args:\n      xnb = x.nbits\n      nbits += xnb", "    for x in reversed(args):\n      xnb = x.nbits\n      nbits += xnb",
+       'R-C06-concat', file=HELPERS),
+    _m('concat-width-off', "      nbits += xnb\n", "      nbits += xnb + 1\n", 'R-C06-concat', file=HELPERS),
+]
+
+EQUIV = [
+    _m('to-bits-range-descending', "for i in reversed(range(len(type_))):", "for i in range(len(type_)-1, -1, -1):"),
+    _m('imatmul-augmented-extend', """        ret.extend( _gen_list_imatmul_strs( type_[0], f"{prefix}[{i}]" ) )""",
+       """        ret += _gen_list_imatmul_strs( type_[0], f"{prefix}[{i}]" )"""),
+    _m('from-bits-iterate-elements', """      for i in range(len(type_)):
+        end_bit, fs = _gen_from_bits_strs( type_[0], end_bit )""", """      for elem_type in type_:
+        end_bit, fs = _gen_from_bits_strs( elem_type, end_bit )"""),
+    _m('fields-attribute-instead-of-getattr', """      for name, typ in getattr(type_, _FIELDS).items():
+        start_bit, tos""", """      for name, typ in type_.__bitstruct_fields__.items():
+        start_bit, tos"""),
+    _m('to-bits-leaf-inline', """      end_bit = start_bit + type_.nbits
+      return end_bit, [ f"self.{prefix}" ]""", """      return type_.nbits + start_bit, [ f"self.{prefix}" ]"""),
+    _m('eq-conjuncts-reordered', "[ f'return (other.__class__ is self.__class__) and {self_tuple} == {other_tuple}' ]",
+       "[ f'return {other_tuple} == {self_tuple} and self.__class__ is other.__class__' ]"),
+    _m('imatmul-loop-over-keys', """  for name, type_ in fields.items():
+    imatmul_strs.extend( _gen_list_imatmul_strs( type_, name ) )""", """  for fname in fields:
+    imatmul_strs.extend( _gen_list_imatmul_strs( fields[fname], fname ) )"""),
+    _m('from-bits-classmethod-inline', """  from_bits = _mk_from_bits_fns( fields, cls.nbits )
+  cls.from_bits = classmethod(from_bits)""", """  cls.from_bits = classmethod( _mk_from_bits_fns( fields, cls.nbits ) )"""),
+    _m('from-bits-leaf-reordered', "start_bit = end_bit - type_.nbits", "start_bit = -type_.nbits + end_bit"),
+    _m('nbits-to-bits-via-locals', "cls.nbits, cls.to_bits = _mk_nbits_to_bits_fn( fields )",
+       "total, packer = _mk_nbits_to_bits_fn( fields )\n  cls.to_bits = packer\n  cls.nbits = total"),
+    _m('concat-operands-commuted', "value = (value << xnb) | x.uint()", "value = x.uint() | (value << x.nbits)", file=HELPERS),
+    _m('clone-range-explicit-start', """for i in range(len(type_)) ] ) + "]\"""", """for i in range(0, len(type_)) ] ) + "]\""""),
+    _m('ff-enumerate', """      for i in range(len(type_)):
+        ils, fls = _gen_list_ilshift_strs( type_[0], f"{prefix}[{i}]" )""", """      for i, et in enumerate(type_):
+        ils, fls = _gen_list_ilshift_strs( et, f"{prefix}[{i}]" )"""),
+    _m('to-bits-locals-renamed', """  to_bits_strs = []
+  total_nbits  = 0
+  for name, type_ in fields.items():
+    total_nbits, tos = _gen_to_bits_strs( type_, name, total_nbits )
+    to_bits_strs.extend( tos )
+
+  return total_nbits, _create_fn""", """  operands = []
+  width  = 0
+  for fname, ftype in fields.items():
+    res = _gen_to_bits_strs( ftype, fname, width )
+    width = res[0]
+    operands += res[1]
+  to_bits_strs = operands
+
+  return width, _create_fn"""),
+    _m('helper-renamed', '_gen_to_bits_strs', '_walk', count=4),
+    _m('leaf-built-with-format', '[ f"self.{prefix} @= other.{prefix}" ]', '[ "self.{0} @= other.{0}".format(prefix) ]'),
+    _m('from-bits-reverse-by-slice', "','.join(reversed(from_strs))", "','.join(from_strs[::-1])"),
+    _m('clone-list-explicit-loop', '''    return "[" + ",".join( [ _gen_list_clone_strs( type_[0], f"{prefix}[{i}]" )
+                        for i in range(len(type_)) ] ) + "]"''', '''    parts = []
+    for i in range(len(type_)):
+      parts.append( _gen_list_clone_strs( type_[0], f"{prefix}[{i}]" ) )
+    return "[" + ",".join( parts ) + "]"'''),
+    _m('imatmul-cases-swapped', '''    if isinstance( type_, list ):
+      ret = []
+      for i in range(len(type_)):
+        ret.extend( _gen_list_imatmul_strs( type_[0], f"{prefix}[{i}]" ) )
+      return ret
+    else:
+      return [ f"self.{prefix} @= other.{prefix}" ]''', '''    if not isinstance( type_, list ):
+      return [ f"self.{prefix} @= other.{prefix}" ]
+    ret = []
+    for i in range(len(type_)):
+      ret.extend( _gen_list_imatmul_strs( type_[0], f"{prefix}[{i}]" ) )
+    return ret'''),
+    _m('from-bits-list-reverse-in-place', """      return end_bit, [ f"[{','.join(reversed(from_strs))}]" ]""",
+       """      from_strs.reverse()
+      return end_bit, [ f"[{','.join(from_strs)}]" ]"""),
+]
+
+LEVEL_TEXT = ("Static analysis of the bitstruct method generators themselves: each source-text generator is evaluated symbolically "
+              "in a template/sequence domain and checked as an induction step over the shape of a field type (list / nested "
+              "struct / Bits leaf), the emitted statement templates are parsed and inspected. It decides, for every struct "
+              "shape at once, traversal completeness and order, layout direction, bit-position bookkeeping, the to_bits/"
+              "from_bits mirror, leaf-wise non-aliasing copy actions, eq/hash field coverage, the positional constructor "
+              "contract and the wiring of generated functions to method names; it does not execute generated code.")
+LEVEL_NOTE = ("Trusted: Python semantics of the emitted statements, the Bits primitives (slice, @=, <<=, _flip, clone; C04/C05), "
+              "_create_fn/exec, rectangular list annotations. Not decided: user overrides of __init__/__eq__/__hash__, the "
+              "class-hash cache collision case, the Yosys layout half (C12).")
+TECHNIQUE = ("symbolic evaluation of string-building generators (template domain with holes, sequence domain with loop segments, "
+             "linear bit-position forms), structural induction per type kind, ast.parse of emitted templates, def-use wiring tables")
